@@ -164,3 +164,10 @@ func (c09HTTP) SelfDeadlock(stack string) (class, detail string) {
 func TestVerifC09HTTP1(t *testing.T) {
 	c09.Main(t, c09HTTP{}, 7, 10)
 }
+
+// TestVerifC09HTTP1Schedules is the concurrent (E1) part for the HTTP/1 pool: see
+// mosn.io/mosn/pkg/verifrt/c09/sched.go. Built with the "c09http" rewrite set (the "proxy" set plus
+// pkg/stream/http: pool mutex, atomics, the serve goroutine and its channels are scheduling points).
+func TestVerifC09HTTP1Schedules(t *testing.T) {
+	c09.MainSchedules(t, c09HTTP{}, c09.DefaultScenarios(), 2, 3)
+}
